@@ -112,6 +112,27 @@ stream, e.g. `fun op => !Op.touchesStat op` = the calls on the caller's array / 
 def outsOf (keep : Op → Bool) (ops : List Op) (w : World) : List Out :=
   (((run ops w).2.zip ops).filter (fun p => keep p.2)).map (·.1)
 
+/-- TWO live caller-side objects (`unsigned short[3]` arrays / `Rand48` objects) `a`, `b` and the static state -/
+structure World2 where
+  a : St
+  b : St
+  stat : St
+deriving DecidableEq, Repr
+
+/-- a call tagged with the object it is made on (`false` = a, `true` = b; the tag is irrelevant for calls on the
+static state): the one-object `step` applied to the selected object -/
+def step2 (w : World2) (c : Bool × Op) : Out × World2 :=
+  let r := step ⟨if c.1 then w.b else w.a, w.stat⟩ c.2
+  (r.1, if c.1 then { w with b := r.2.user, stat := r.2.stat } else { w with a := r.2.user, stat := r.2.stat })
+
+def run2 : List (Bool × Op) → World2 → World2 × List Out
+  | [], w => (w, [])
+  | c :: cs, w => ((run2 cs (step2 w c).2).1, (step2 w c).1 :: (run2 cs (step2 w c).2).2)
+
+/-- the values returned by the calls made ON OBJECT `a` (not on `b`, not on the static state), in call order -/
+def outsOfA (cs : List (Bool × Op)) (w : World2) : List Out :=
+  (((run2 cs w).2.zip cs).filter (fun p => !p.2.1 && !Op.touchesStat p.2.2)).map (·.1)
+
 /-- the 32-bit LCG of Rand32 -/
 def lcg32 (x : Nat) : Nat := (1664525 * x + 1013904223) % 4294967296
 
